@@ -432,6 +432,7 @@ func (c *conn) Write(p []byte) (int, error) {
 			h.closed = true
 			c.n.Stats.CutEOF++
 		}
+		h.writerGone = true // later writes in this direction fail (respecting the one-write-late knob)
 		// the other direction dies as well
 		o := c.rd
 		o.writerGone = true
@@ -447,7 +448,12 @@ func (c *conn) Write(p []byte) (int, error) {
 	c.n.mu.Unlock()
 	simrt.Progress()
 	if cutNow {
-		// the writer learns about the cut on this write or (late-error connections) on the next one
+		// A write whose bytes were all accepted before the cut succeeds (the kernel took them); the failure
+		// surfaces on a later write. A write that crosses the cut is short: on "late error" connections it still
+		// reports success (the bytes sit in the send buffer when the RST arrives), otherwise it returns the error.
+		if len(deliver) == len(p) {
+			return len(p), nil
+		}
 		if c.lateErr {
 			c.n.mu.Lock()
 			h.lateErrArmed = true
